@@ -110,6 +110,12 @@ def build(inst):
         cs_ = ' /\\ '.join(cs)
         care = ctx.add_expr(cs_)
         desc = f'f = {fs}; care = {cs_}'
+    elif kind == 'expr':
+        # hand-written predicate and care set (omega syntax)
+        fs, cs_ = inst['arg']
+        f = ctx.add_expr(fs)
+        care = ctx.add_expr(cs_)
+        desc = f'f = {fs}; care = {cs_}'
     elif kind == 'slices':
         # f: isolated points of a 3 x 2 lattice in (x, y); the care set depends on z, which f does not mention: in
         # each z-slice the don't-care points join the lattice points along x, along y, both or not at all, so that
